@@ -30,6 +30,7 @@ func init() {
 			need(m, &out, "rewind_state_before_first_call", 50)
 			need(m, &out, "repeated_rewinds", 200)
 			need(m, &out, "long_stream_rewinds", 500)
+			need(m, &out, "rewinds_on_streams_with_damaged_tables", 500)
 			need(m, &out, "rewinds_with_a_size_detection_would_not_find", 200)
 			return out
 		},
@@ -92,6 +93,36 @@ func runC20(c *mon.Ctx) {
 						cfg.Chunk = nil
 					}
 					rewindCase(c, "streams", i, s, m, cfg, fresh, k, k2)
+				}
+			}
+		}
+		// damaged tables: a unit whose first sections are valid and a later one is not (CRC), or any other parse error: whatever the
+		// Demuxer makes of it, it makes the same of it after a Rewind, wherever the Rewind falls
+		if i%4 == 3 {
+			b := append([]byte{}, s.Bytes...)
+			hit := 0
+			for tries := 0; tries < 40 && hit < 2; tries++ {
+				k := r.IntN(len(s.Packets))
+				u := s.Owner[k]
+				if u == nil || u.Kind != gen.UnitPSI || len(s.Packets[k].Payload) < 8 {
+					continue
+				}
+				off := k*188 + 188 - 1 - r.IntN(len(s.Packets[k].Payload)-4)
+				b[off] ^= byte(1 + r.IntN(255))
+				hit++
+			}
+			if hit > 0 {
+				sv := &gen.Stream{Units: s.Units, Packets: s.Packets, Owner: s.Owner, Bytes: b}
+				for _, api := range []string{"data", "alt"} {
+					cfg := DemuxCfg{PacketSize: 188, Reader: "seek", API: api}
+					fresh := RunDemux(b, cfg)
+					if fresh.Panic != "" {
+						continue
+					}
+					for kk := 0; kk <= fresh.Calls; kk++ {
+						rewindCase(c, "streams", i, sv, m, cfg, fresh, kk, -1)
+						c.Count("rewinds_on_streams_with_damaged_tables")
+					}
 				}
 			}
 		}
